@@ -12,3 +12,10 @@ func constInt(m an.EnumMember) (int64, bool) {
 	}
 	return constant.Int64Val(m.Const.Val())
 }
+
+func constStr(m an.EnumMember) string {
+	if m.Const.Val().Kind() != constant.String {
+		return ""
+	}
+	return constant.StringVal(m.Const.Val())
+}
